@@ -59,20 +59,23 @@ LEVEL_TEXT = ('Partial. Coq theorems over hand models tied to the source by exac
               'node ids; under pairwise distinct final names every block is stored under its name as the range of its rows and the ranges in order are exactly '
               '0..nE-1; every node set / side set is stored under its name with the same length, adding one gives back the file records (no member lost or merged), '
               'members in range (node ids; element ids and sides 0..2). The distinct-names hypothesis is needed: C13_read_exodus_name_clash_refuted (a block named '
-              '\'block_2\' followed by an unnamed block) -- reproduced on the implementation, open finding C13-READ-NAMES. The whole-file model is compared with '
+              '\'block_2\' followed by an unnamed block) -- finding C13-READ-NAMES, fixed by /repo ce166ed, see (7b). The whole-file model is compared with '
               'the reader on in-memory files AND on the 8 real classic-netCDF Exodus files of the repository (6 of them, <= 2500 elements, also through Coq; all 8 '
-              'through the conclusion predicate). netCDF4 is not installed: the reader code runs unchanged on a stand-in for netCDF4.Dataset backed by '
+              'through the conclusion predicate). The netCDF4 C library is not exercised: the reader code runs unchanged on a stand-in for netCDF4.Dataset backed by '
               'scipy.io.netcdf_file (real files) or by in-memory arrays; the 3 HDF5-based fixtures cannot be read here. '
-              '(7b) round 4: C13_dict_assignment_lossless_iff (dict(zip(names, vals)) keeps one entry per record IFF the names are pairwise distinct), so the '
-              'distinct-names hypothesis is exactly the loss-free case; the PROPOSED repair of C13-READ-NAMES (tools/vlib/c13_read_names.patch: raise ValueError when the '
-              'final names of a kind are not pairwise distinct) is modelled as read_exodus_checked: it accepts exactly the files with distinct final names and returns '
-              'what the present reader returns (C13_read_exodus_checked_spec), rejects exactly the well-formed files on which the present reader drops a record '
-              '(C13_read_exodus_rejects_iff_record_lost) and on every accepted file nothing is lost with NO hypothesis on names (C13_read_exodus_checked_no_loss); '
-              'the patch text is applied to the current source in memory on every run and compared with the model. block_maps: C13_read_block_maps (under distinct '
-              'names block b gets the slice [first_b, first_b+n_b) of the element number map -- the file\'s or 1..nE -- and the slices in order are the whole map), '
-              'C13_read_block_maps_name_clash_refuted (misaligned under a clash: same finding); coordinates: C13_read_coords (row i = (coordx[i], coordy[i])). '
-              'A new stream generates files whose final names coincide (given names equal to each other or to auto-generated names): the present reader agrees '
-              'with the whole-file model there too (the model predicts the overwrite exactly); its losses are reported under the open finding. '
+              '(7b) round 4, after /repo ce166ed (the repair proposed by this check, applied): THE REPOSITORY\'S READER IS read_exodus_checked -- after the auto-naming loops '
+              '_check_names_are_distinct raises ValueError when the final names of a kind coincide (None in the model), otherwise the reader does what read_exodus does. '
+              'Headline, NO hypothesis on names (C13_read_exodus_mesh_whole_file, C13_read_exodus_checked_spec / _no_loss): on every well-formed file the reader either '
+              'rejects -- exactly when some final names coincide -- or returns a mesh with one element per file row, every block / node set / side set stored under its '
+              'name with all its members, blocks partitioning 0..nE-1, and block_maps whose entries in order are the element number map; it rejects exactly the files on '
+              'which the reader without the check would drop a record (C13_read_exodus_rejects_iff_record_lost, from C13_dict_assignment_lossless_iff: dict(zip(names, vals)) '
+              'keeps one entry per record IFF the names are pairwise distinct) -- no over-rejection. block_maps: C13_read_block_maps (block b gets the slice '
+              '[first_b, first_b+n_b) of the element number map -- the file\'s or 1..nE); coordinates: C13_read_coords. The theorems (7) under the distinct-names hypothesis are the '
+              'lemmas behind these; C13_read_exodus_name_clash_refuted / C13_read_block_maps_name_clash_refuted record what the reader did before the fix (finding '
+              'C13-READ-NAMES, now fixed: its witness file is replayed every run and must be rejected). That the real reader IS read_exodus_checked is tied, not proved: '
+              'the real reader is compared with the model (accept / ValueError, whole mesh, block_maps) on in-memory files with distinct names, on a stream whose final names often '
+              'coincide (given names equal to each other or to auto-generated names), on the repository\'s fixtures, and by a fail-closed AST check that the three '
+              '_check_names_are_distinct calls sit between the auto-naming loop and the first use of the names. '
               'Not modelled: the netCDF/JSON byte layer, name decoding, masked-array .filled() of the coordinate records.')
 TECHNIQUE = 'Coq proof over hand models (nat/Z/list; coordinates over R in theorems) + vm_compute correspondence with exact integer comparison'
 GEN = []
@@ -90,18 +93,17 @@ TRUSTED = ['Coq 8.16.1 kernel + vm_compute (no native_compute)',
 ASSUMPTIONS = ['np.linspace returns strictly increasing arrays for the extents used (checked exactly on every generated case)',
                'order elevation: connectivity theorems are about the write-log model (functional array updates, last write wins); coordinate theorems are over R, the binary64 instance of the same definition is compared with the implementation (rounding of np.dot not proved)',
                'real Exodus files are read through scipy.io.netcdf_file instead of netCDF4 (classic / 64-bit-offset files only; byte order normalised to native as netCDF4 does); ReadMesh.read_json_mesh is exercised on real files written by the harness',
-               'reader theorems on blocks / sets of the PRESENT reader assume pairwise distinct final names (needed and exact: C13_read_exodus_name_clash_refuted, C13_dict_assignment_lossless_iff; open finding C13-READ-NAMES); the theorems without that hypothesis are about read_exodus_checked, the reader with the proposed patch (tools/vlib/c13_read_names.patch), which is NOT the repository\'s code today',
+               'readers: the model of the repository\'s reader is read_exodus_checked (reader with the name check of ce166ed); that identification is tied by exact comparison (accept / ValueError, whole mesh, block_maps) and by the AST check names_check_structure, not proved; theorems stated with a distinct-names hypothesis are about read_exodus, the reader without the check',
                'isoparametric Jacobian: the every-point statement needs shape rows that reproduce the affine functions exactly (true of the exact solution of the Vandermonde systems when the basis spans P1 -- a hypothesis); the computed binary64 tables are covered at the quadrature points by the certificate (1e-12)',
                'numpy/jax indexing, unique and concatenate behave as modelled (tied by the correspondence, not proved)']
 RULE = ('cases: structured sizes 2..7 x 2..7 with random extents; random Delaunay triangulations (6..30 points, optional hole, random cyclic '
         'rotation per element, occasionally one flipped element) through create_edges; random pairs of meshes with random block / node-set / '
         'side-set names (mostly clashing, some distinct) through combine_mesh; abstract Exodus descriptions (tri3/tri6, 1..3 blocks, named and unnamed sets) '
         'and JSON files through the readers, plus the 8 real classic-netCDF Exodus files of the repository (tests and examples); Exodus descriptions with 2..4 blocks / 0..3 node sets / 0..3 side sets whose '
-        'names are drawn from {empty, the auto-generated names, one fixed name} so that final names often coincide (present reader, and the reader with the proposed patch applied in memory); '
+        'names are drawn from {empty, the auto-generated names, one fixed name} so that final names often coincide (the reader must raise ValueError exactly then); '
         'elevation orders 2..5 with and without bubble, isoparametric Jacobian at every quadrature point of every elevated element.  Non-trivial = at least 2 elements; '
         'distinct = distinct inputs')
 IMPORTS = ['From OV.model Require Import M_C13_Struct M_C13_Edges M_C13_Combine M_C13_Read M_C13_Elevate M_C13_Coords M_C13_ElevMesh M_C13_Jac.']
-PATCH_FILE = os.path.join(os.path.dirname(os.path.abspath(__file__)), '..', 'vlib', 'c13_read_names.patch')
 NAMES = ['block_0', 'left', 'right', 'top', 'bottom', 'all', 'inner', 'b1', 'b2']
 
 
@@ -607,8 +609,9 @@ class NameIds:
 
 
 def exo_expr(desc, ids):
-    """Coq term: enc_rmesh of the whole-file reader model on the abstract description (1-based, as in the file)"""
-    return 'enc_rmesh (read_exodus %s)' % exo_args(desc, ids)
+    """Coq term: the whole-file model of the repository's reader (read_exodus_checked: since ce166ed the reader raises ValueError on equal
+    final names; [-9] encodes the rejection) on the abstract description (1-based, as in the file)"""
+    return 'enc_checked (read_exodus_checked %s)' % exo_args(desc, ids)
 
 
 def exo_args(desc, ids):
@@ -716,8 +719,8 @@ def names_record(names, width=8):
 
 def clashy_names(r, n, pre):
     """names prone to coincide with each other and with the auto-generated names pre<i+1>"""
-    pool = ['', ''] + [pre + str(i + 1) for i in range(n)] + ['A']
-    return [r.choice(pool) for _ in range(n)]
+    pool = [pre + str(i + 1) for i in range(n)] + ['A']
+    return [('' if r.random() < 0.55 else r.choice(pool + ['u%d' % i])) for i in range(n)]
 
 
 def enc_block_maps_impl(mesh, ids):
@@ -730,22 +733,66 @@ def enc_block_maps_impl(mesh, ids):
     return out
 
 
-def patched_reader_module():
-    """optimism/ReadExodusMesh.py with the PROPOSED patch of finding C13-READ-NAMES (tools/vlib/c13_read_names.patch) applied to the
-    current source text, as an in-memory module (nothing is written into the repository)"""
-    import subprocess
-    import tempfile
-    src = os.path.join(C.REPO, 'optimism', 'ReadExodusMesh.py')
-    with tempfile.TemporaryDirectory() as td:
-        out = os.path.join(td, 'patched.py')
-        p = subprocess.run(['patch', '-s', '-f', '-o', out, src, PATCH_FILE], stdout=subprocess.PIPE, stderr=subprocess.STDOUT, text=True)
-        if p.returncode != 0 or not os.path.exists(out):
-            return None, (p.stdout or '')[-300:]
-        code = open(out).read()
-    mod = types.ModuleType('optimism._c13_patched_ReadExodusMesh')
-    mod.__file__ = src + ' + c13_read_names.patch'
-    exec(compile(code, mod.__file__, 'exec'), mod.__dict__)
-    return mod, ''
+def names_check_structure():
+    """structural tie of the repair ce166ed (fail-closed): in optimism/ReadExodusMesh.py each of _read_blocks / _read_node_sets /
+    _read_side_sets contains the auto-naming loop `for i, name in enumerate(NAMES): if not name: NAMES[i] = ...` and, AFTER it in the same
+    statement list and BEFORE anything else uses NAMES (the dict insertion), the statement `_check_names_are_distinct(NAMES, ...)`;
+    and _check_names_are_distinct raises under a test comparing len(set(names)) with len(names).  -> list of defects (empty = ok)"""
+    src = open(os.path.join(C.REPO, 'optimism', 'ReadExodusMesh.py')).read()
+    tree = ast.parse(src)
+    funcs = {n.name: n for n in tree.body if isinstance(n, ast.FunctionDef)}
+    bad = []
+
+    def uses(node, name):
+        return any(isinstance(x, ast.Name) and x.id == name for x in ast.walk(node))
+
+    def scan(stmts, fname):
+        """first auto-naming loop found in any statement list of the function: (list, index, NAMES)"""
+        for k, st in enumerate(stmts):
+            if isinstance(st, ast.For) and isinstance(st.iter, ast.Call) and getattr(st.iter.func, 'id', '') == 'enumerate' and st.iter.args \
+                    and isinstance(st.iter.args[0], ast.Name) and any(isinstance(x, ast.Assign) and isinstance(x.targets[0], ast.Subscript)
+                                                                      and getattr(x.targets[0].value, 'id', None) == st.iter.args[0].id for x in ast.walk(st)):
+                return stmts, k, st.iter.args[0].id
+            for sub in ('body', 'orelse'):
+                inner = getattr(st, sub, None)
+                if isinstance(inner, list) and inner and not isinstance(st, ast.For):
+                    found = scan(inner, fname)
+                    if found:
+                        return found
+        return None
+    for fname in ('_read_blocks', '_read_node_sets', '_read_side_sets'):
+        fn = funcs.get(fname)
+        if fn is None:
+            bad.append('%s is missing' % fname); continue
+        found = scan(fn.body, fname)
+        if not found:
+            bad.append('%s: the auto-naming loop was not found' % fname); continue
+        stmts, k, names = found
+        ok = False
+        for st in stmts[k + 1:]:
+            if isinstance(st, ast.Expr) and isinstance(st.value, ast.Call) and getattr(st.value.func, 'id', '') == '_check_names_are_distinct' \
+                    and st.value.args and getattr(st.value.args[0], 'id', None) == names:
+                ok = True
+                break
+            if uses(st, names):
+                break            # the names are used (dict insertion) before they were checked
+        if not ok:
+            bad.append('%s: _check_names_are_distinct(%s, ...) is not called between the auto-naming loop and the first use of %s' % (fname, names, names))
+    chk = funcs.get('_check_names_are_distinct')
+    if chk is None:
+        bad.append('_check_names_are_distinct is missing')
+    else:
+        arg = chk.args.args[0].arg if chk.args.args else None
+        good = False
+        for st in chk.body:
+            if isinstance(st, ast.If) and any(isinstance(x, ast.Raise) for x in st.body) and isinstance(st.test, ast.Compare) \
+                    and len(st.test.ops) == 1 and isinstance(st.test.ops[0], ast.NotEq):
+                sides = [ast.dump(st.test.left), ast.dump(st.test.comparators[0])]
+                want = [ast.dump(ast.parse('len(set(%s))' % arg, mode='eval').body), ast.dump(ast.parse('len(%s)' % arg, mode='eval').body)]
+                good = sorted(sides) == sorted(want)
+        if not good:
+            bad.append('_check_names_are_distinct does not raise under `len(set(names)) != len(names)`')
+    return bad
 
 
 def clash_verdict(desc, mesh):
@@ -925,15 +972,14 @@ def part_readers(ctx, model_ok):
             ctx.count('exodus_blocks', len(desc['blocks']))
             ctx.count('exodus_unnamed_entities', sum(1 for nm in desc['bnames'] + desc['nsnames'] + desc['ssnames'] if not nm))
             ctx.count('exodus_set_members', sum(len(x) for x in desc['nodesets']) + sum(len(x) for x in desc['sidesets']))
-        # (b'') files whose FINAL names may coincide (given names equal to each other or to an auto-generated name): the present reader
-        # against the whole-file model (which predicts the dict overwrite exactly) and against the theorems' conclusions (losses that are
-        # exactly the overwrite are open finding C13-READ-NAMES); the reader with the PROPOSED patch applied in memory against the model
-        # read_exodus_checked (rejects iff the final names are not pairwise distinct, C13_read_exodus_checked_spec) and against
-        # C13_read_exodus_checked_no_loss
+        # (b'') files whose FINAL names may coincide (given names equal to each other or to an auto-generated name).  Since ce166ed the
+        # repository's reader IS the checked reader: it must raise ValueError exactly when the final names of some kind are not pairwise
+        # distinct (model read_exodus_checked, C13_read_exodus_checked_spec) and on every file it accepts nothing may be lost, with no
+        # hypothesis on names (C13_read_exodus_checked_no_loss); a silently shortened dict is a regression of fixed finding C13-READ-NAMES
+        for d_ in names_check_structure():
+            ctx.fail('structural', 'ReadExodusMesh.py: ' + d_, case=dict(part='names_check_structure', defect=d_))
+        ctx.count('names_check_structure_checks', 4)
         r2 = ctx.rng('readclash')
-        pmod, perr = patched_reader_module()
-        if pmod is None:
-            ctx.notes.append('the proposed patch c13_read_names.patch does not apply to the current ReadExodusMesh.py (%s); the patched-reader stream is skipped' % perr.strip()[:200])
         for i in range(ctx.n(14, 90)):
             dims, var, desc = exodus_case(r2, clash=True)
             key = 'clash%d' % i
@@ -947,11 +993,13 @@ def part_readers(ctx, model_ok):
             case = dict(part='exodus_clash', desc=desc)
             try:
                 mesh = ReadExodusMesh.read_exodus_mesh(key)
-            except ValueError as ex:
+            except ValueError:
                 mesh = None
-                ctx.count('exodus_clash_files_rejected_by_the_reader')
-                if not clash:
-                    ctx.fail('conclusion', 'read_exodus_mesh rejects a well-formed file with pairwise distinct names: %s' % ex, case=case, concrete=True)
+            ctx.count('reader_rejections' if mesh is None else 'reader_acceptances')
+            if (mesh is None) != clash:
+                ctx.fail('conclusion', 'read_exodus_mesh %s a well-formed file whose final names are %spairwise distinct (blocks %r, node sets %r, side sets %r)'
+                         % ('rejects' if mesh is None else 'accepts', 'not ' if clash else '', fns[0], fns[1], fns[2]),
+                         case=dict(part='exodus_clash', clause='accept-iff-distinct', final_names=fns, desc=desc), concrete=True)
             ids = NameIds()
             args = exo_args(desc, ids)
             emap_term = zl([0] + desc['emap']) if desc['emap'] is not None else '[]'
@@ -959,31 +1007,21 @@ def part_readers(ctx, model_ok):
                 for b in exodus_no_loss(desc, mesh):
                     ctx.fail('conclusion', 'read_exodus_mesh: ' + b, case=case, concrete=True)
                 for kind, fn, keys, explained in clash_verdict(desc, mesh):
-                    ctx.fail('conclusion', 'read_exodus_mesh keeps %d of %d %ss: final names %r coincide and the dict assignment overwrites the earlier record%s'
-                             % (len(keys), len(fn), kind, fn, '' if explained else ' -- and what is kept is NOT the plain overwrite'),
+                    ctx.fail('conclusion', 'read_exodus_mesh keeps %d of %d %ss: final names %r coincide and an earlier record is dropped silently%s'
+                             % (len(keys), len(fn), kind, fn, ' (plain dict overwrite: regression of fixed finding C13-READ-NAMES)' if explained else ''),
                              case=dict(part='exodus_clash', clause='record-lost', kind=kind, final_names=fn, kept=keys, equal_final_names=True,
                                        explained_by_dict_overwrite=bool(explained), desc=desc), concrete=True)
                     ctx.count('exodus_clash_records_lost', len(fn) - len(keys))
+                if len(mesh.blocks) != len(desc['blocks']) or len(mesh.nodeSets) != len(desc['nodesets']) or len(mesh.sideSets) != len(desc['sidesets']):
+                    ctx.fail('conclusion', 'read_exodus_mesh accepted the file but returns %d/%d/%d blocks / node sets / side sets for %d/%d/%d records'
+                             % (len(mesh.blocks), len(mesh.nodeSets), len(mesh.sideSets), len(desc['blocks']), len(desc['nodesets']), len(desc['sidesets'])),
+                             case=dict(part='exodus_clash', clause='count', desc=desc), concrete=True)
                 if np.asarray(mesh.coords).tolist() != desc['coords']:
                     ctx.fail('conclusion', 'read_exodus_mesh: coordinates differ from the file', case=case, concrete=True)
-                kexprs.append('enc_rmesh (read_exodus %s)' % args)
-                kcases.append((desc, enc_read_mesh(mesh, ids), 'equal-names stream'))
                 bexprs.append('enc_block_maps %s %s' % (args, emap_term))
                 bcases.append((desc, enc_block_maps_impl(mesh, ids), 'equal-names stream'))
-            if pmod is not None:
-                try:
-                    pm = pmod.read_exodus_mesh(key)
-                except ValueError:
-                    pm = None
-                ctx.count('patched_reader_rejections' if pm is None else 'patched_reader_acceptances')
-                if (pm is None) != clash:
-                    ctx.fail('conclusion', 'the reader with the proposed patch %s a file whose final names are %spairwise distinct'
-                             % ('rejects' if pm is None else 'accepts', 'not ' if clash else ''), case=dict(part='exodus_patched', desc=desc), concrete=True)
-                if pm is not None:
-                    for b in exodus_no_loss(desc, pm):
-                        ctx.fail('conclusion', 'patched read_exodus_mesh: ' + b, case=dict(part='exodus_patched', desc=desc), concrete=True)
-                cexprs_.append('enc_checked (read_exodus_checked %s)' % args)
-                ccases.append((desc, None if pm is None else enc_read_mesh(pm, ids)))
+            cexprs_.append('enc_checked (read_exodus_checked %s)' % args)
+            ccases.append((desc, None if mesh is None else enc_read_mesh(mesh, ids)))
         # (b') REAL Exodus files of the repository (classic netCDF), read by the unchanged reader code through the scipy-backed stand-in
         for rel in REAL_EXODUS:
             path = os.path.join(C.REPO, rel)
@@ -1063,8 +1101,11 @@ def part_readers(ctx, model_ok):
         ctx.count('model_vs_impl_comparisons')
     # whole-file reader model (M_C13_ReadFile.read_exodus) against the implementation: connectivity, block / node-set / side-set
     # dicts (names, order, members), simplexNodesOrdinals (as a set)
-    wres = C.coq_eval(['From OV.model Require Import M_C13_Combine M_C13_Read M_C13_ReadFile.'], wexprs + jexprs, 'C13f', shard=6, timeout=900)
+    wres = C.coq_eval(['From OV.model Require Import M_C13_Combine M_C13_Read M_C13_ReadFile M_C13_ReadChk.'], wexprs + jexprs, 'C13f', shard=6, timeout=900)
     for (desc, (want, wsimplex), tag), got in zip(wcases, wres):
+        if -7 not in got:
+            ctx.fail('correspondence', 'read_exodus_mesh (%s): the model read_exodus_checked rejects a file the reader accepted' % tag, case=dict(part='exodus', desc=desc))
+            continue
         cut = len(got) - 1 - got[::-1].index(-7)
         if got[:cut + 1] != want or sorted(got[cut + 1:]) != wsimplex:
             d = next((i for i, (a, b) in enumerate(zip(got, want)) if a != b), min(len(got), len(want)))
@@ -1077,16 +1118,8 @@ def part_readers(ctx, model_ok):
         if got != want:
             ctx.fail('correspondence', 'read_json_mesh: side sets of the model (%r) differ from the implementation (%r)' % (got[:12], want[:12]), case=dict(part='json'))
         ctx.count('model_vs_impl_comparisons')
-    # equal-names stream, block_maps, repaired reader: models of M_C13_ReadFile / M_C13_ReadChk against the implementation
+    # equal-names stream and block_maps: models of M_C13_ReadChk against the implementation
     kres = C.coq_eval(['From OV.model Require Import M_C13_Combine M_C13_Read M_C13_ReadFile M_C13_ReadChk.'], kexprs + bexprs + cexprs_, 'C13g', shard=12, timeout=900, jobs=2)
-    for (desc, (want, wsimplex), tag), got in zip(kcases, kres):
-        cut = len(got) - 1 - got[::-1].index(-7)
-        if got[:cut + 1] != want or sorted(got[cut + 1:]) != wsimplex:
-            d = next((i for i, (a, b) in enumerate(zip(got, want)) if a != b), min(len(got), len(want)))
-            ctx.fail('correspondence', 'read_exodus_mesh (%s): the whole-file reader model differs from the implementation at encoded position %d (%r vs %r)'
-                     % (tag, d, got[d:d + 6], want[d:d + 6]), case=dict(part='exodus_clash', desc=desc))
-        ctx.count('model_vs_impl_comparisons')
-        ctx.count('whole_file_model_comparisons_equal_names')
     for (desc, want, tag), got in zip(bcases, kres[len(kcases):]):
         if got != want:
             ctx.fail('correspondence', 'read_exodus_mesh (%s): block_maps of the model %r differ from the implementation %r' % (tag, got[:14], want[:14]),
@@ -1100,10 +1133,11 @@ def part_readers(ctx, model_ok):
             cut = len(got) - 1 - got[::-1].index(-7) if -7 in got else -1
             ok = got[:cut + 1] == want[0] and sorted(got[cut + 1:]) == want[1]
         if not ok:
-            ctx.fail('correspondence', 'patched read_exodus_mesh: the model read_exodus_checked (%s) differs from the source with the proposed patch applied (%s)'
-                     % ('rejects' if got == [-9] else 'accepts', 'rejects' if want is None else 'accepts'), case=dict(part='exodus_patched', desc=desc))
+            ctx.fail('correspondence', 'read_exodus_mesh (equal-names stream): the model read_exodus_checked (%s) differs from the reader (%s%s)'
+                     % ('rejects' if got == [-9] else 'accepts', 'raises ValueError' if want is None else 'accepts',
+                        '' if (want is None) != (got != [-9]) or want is None else ', different mesh'), case=dict(part='exodus_clash', desc=desc))
         ctx.count('model_vs_impl_comparisons')
-        ctx.count('patched_reader_model_comparisons')
+        ctx.count('checked_reader_model_comparisons')
 
 
 # ------------------------------------------------------------------------------------------ 5. order elevation (tests only)
@@ -1561,7 +1595,7 @@ def correspondence(ctx, model_ok):
     part_readers(ctx, model_ok)
     part_elevate(ctx, model_ok)
     part_purity(ctx)
-    ctx.cov['parts'] = ['structured', 'edges', 'combine', 'readers(exodus in-memory, equal-final-names stream, proposed patch applied in memory, block_maps model, real files, json files)', 'elevation (write-log connectivity model, binary64 coordinate model, certificates incl. shape-table reproduction, isoparametric Jacobian on the implementation)', 'purity/aliasing/histories (combine, elevate incl. node-set flags, mesh_with_*, create_edges, reader re-reads)']
+    ctx.cov['parts'] = ['structured', 'edges', 'combine', 'readers(exodus in-memory, equal-final-names stream against read_exodus_checked, AST check of the name checks, block_maps model, real files, json files)', 'elevation (write-log connectivity model, binary64 coordinate model, certificates incl. shape-table reproduction, isoparametric Jacobian on the implementation)', 'purity/aliasing/histories (combine, elevate incl. node-set flags, mesh_with_*, create_edges, reader re-reads)']
 
 
 def search(ctx, reasons):
@@ -1581,10 +1615,7 @@ def search(ctx, reasons):
 def matches_finding(fl, f):
     c = fl.get('case') or {}
     if f['id'] == 'C13-READ-NAMES':
-        # narrow: a record-lost conclusion of the equal-names stream, with equal final names, where what the reader kept is EXACTLY the
-        # dict overwrite (keys = distinct final names in first-occurrence order, values = the last record of each name)
-        return (c.get('part') == 'exodus_clash' and c.get('clause') == 'record-lost' and bool(c.get('equal_final_names'))
-                and bool(c.get('explained_by_dict_overwrite')) and len(set(c.get('final_names') or [])) < len(c.get('final_names') or []))
+        return False          # fixed (ce166ed): nothing is excused any more; a recurrence is reported by finding_fails and by the equal-names stream
     if f['id'] == 'F8':
         return (c.get('part') == 'combine' and c.get('clause') == 'lost' and bool(c.get('name_in_both')) and c.get('from_mesh') == 1
                 and bool(c.get('merged_equals_second_only')))
@@ -1595,11 +1626,18 @@ def finding_fails(ctx, f):
     import copy
     import optimism  # noqa: F401
     if f['id'] == 'C13-READ-NAMES':
+        # fixed by ce166ed: the witness file (block NAMED 'block_2' + unnamed second block, elements numbered 10, 20) must be REJECTED with
+        # ValueError.  Recurrence = the reader returns a mesh with fewer blocks than records / an element in no block / block_maps that do not
+        # give every block the global numbers of its own elements (what C13_read_exodus_name_clash_refuted and
+        # C13_read_block_maps_name_clash_refuted describe for the reader without the check)
         w = exodus_name_clash_witness()
         ctx.cov['read_exodus_name_clash_replay'] = w
-        # the model's prediction (C13_read_exodus_name_clash_refuted): two elements, ONE block entry 'block_2' = [1]; element 0 in no block
-        # and C13_read_block_maps_name_clash_refuted: the surviving block (element 1, global number 20) is mapped to number 10
-        return w is not None and w.get('elements') == 2 and w.get('blocks') == {'block_2': [1]} and w.get('block_maps') == {'block_2': [10]}
+        if w is None or 'rejected' in w:
+            return False
+        emap = [10, 20]
+        covered = sorted(e for v in w['blocks'].values() for e in v)
+        maps_ok = set(w['block_maps']) == set(w['blocks']) and all(w['block_maps'][k] == [emap[e] for e in v] for k, v in w['blocks'].items())
+        return len(w['blocks']) < 2 or covered != [0, 1] or not maps_ok
     c2 = copy.copy(ctx)
     c2.failures, c2.counts = [], {}
     run_combine(c2, [tuple(F8_WITNESS)], False, 'k')
